@@ -87,8 +87,20 @@ def _has(fn, kinds) -> bool:
 
 def _inlinable_def(fn: ast.FunctionDef) -> bool:
     a = fn.args
-    if a.vararg or a.kwarg or a.posonlyargs:
+    if a.kwarg or a.posonlyargs:
         return False
+    if a.vararg:
+        # `*args` is supported when the callee only hands it on (`f(*args)`) and never rebinds / inspects it
+        for n in ast.walk(fn):
+            if isinstance(n, ast.Name) and n.id == a.vararg.arg:
+                par = getattr(n, "_nparent", None)
+                if not isinstance(n.ctx, ast.Load):
+                    return False
+        uses = [n for n in ast.walk(fn) if isinstance(n, ast.Name) and n.id == a.vararg.arg]
+        starred = [n.value for n in ast.walk(fn) if isinstance(n, ast.Starred) and isinstance(n.value, ast.Name) and n.value.id == a.vararg.arg]
+        calls_with = [x for c in ast.walk(fn) if isinstance(c, ast.Call) for x in c.args if isinstance(x, ast.Starred)]
+        if len(uses) != len(starred) or any(s_ not in [c.value for c in calls_with] for s_ in starred):
+            return False
     if fn.decorator_list and [ast.unparse(d) for d in fn.decorator_list] != ["staticmethod"]:
         return False
     if isinstance(fn, ast.AsyncFunctionDef):
@@ -123,8 +135,11 @@ def _bind_args(callee: ast.FunctionDef, call: ast.Call, skip_self: bool, prefix:
         params = params[1:]
     if any(isinstance(x, ast.Starred) for x in call.args) or any(k.arg is None for k in call.keywords):
         return None
+    extra: List[ast.expr] = []
     if len(call.args) > len(params):
-        return None
+        if a.vararg is None:
+            return None
+        extra = list(call.args[len(params):])
     bound: Dict[str, ast.expr] = {}
     for p, v in zip(params, call.args):
         bound[p] = v
@@ -146,6 +161,8 @@ def _bind_args(callee: ast.FunctionDef, call: ast.Call, skip_self: bool, prefix:
             out.append((p, copy.deepcopy(defaults[p])))
         else:
             return None
+    if a.vararg is not None:
+        out.append(("*" + a.vararg.arg, extra))
     return out
 
 
@@ -156,6 +173,17 @@ def _expand_call(callee: ast.FunctionDef, call: ast.Call, skip_self: bool, self_
     binding = _bind_args(callee, call, skip_self, prefix)
     if binding is None:
         return None
+    star = [(p[1:], v) for p, v in binding if p.startswith("*")]
+    binding = [(p, v) for p, v in binding if not p.startswith("*")]
+    # a parameter that is only *called* (a callback) and bound to a plain name / attribute chain is substituted, so the
+    # call site reads `self._validate_field(...)` again instead of `check(...)`
+    reassigned = _assigned_names(callee)
+    subst: Dict[str, ast.expr] = {}
+    for p, v in binding:
+        called = any(isinstance(c, ast.Call) and isinstance(c.func, ast.Name) and c.func.id == p for c in ast.walk(callee))
+        if called and p not in reassigned and _plain_chain(v):
+            subst[p] = v
+    binding = [(p, v) for p, v in binding if p not in subst]
     locals_ = _assigned_names(callee) | {p for p, _ in binding}
     mapping = {nm: prefix + nm for nm in locals_}
     ret = prefix + "ret"
@@ -173,6 +201,33 @@ def _expand_call(callee: ast.FunctionDef, call: ast.Call, skip_self: bool, self_
         pre.append(ast.copy_location(st, call))
     body = [copy.deepcopy(s) for s in callee.body
             if not (isinstance(s, ast.Expr) and isinstance(s.value, ast.Constant) and isinstance(s.value.value, str))]
+    star_names: Dict[str, List[str]] = {}
+    for vname, exprs in star:
+        names = []
+        for i, e in enumerate(exprs):
+            nm = "%s%s%d" % (prefix, vname, i)
+            st = ast.Assign(targets=[ast.Name(id=nm, ctx=ast.Store())], value=e)
+            pre.append(ast.copy_location(st, call))
+            names.append(nm)
+        star_names[vname] = names
+    if star_names or subst:
+        class _Sub(ast.NodeTransformer):
+            def visit_Call(self, node):
+                self.generic_visit(node)
+                new_args = []
+                for x in node.args:
+                    if isinstance(x, ast.Starred) and isinstance(x.value, ast.Name) and x.value.id in star_names:
+                        new_args += [ast.copy_location(ast.Name(id=nm, ctx=ast.Load()), x) for nm in star_names[x.value.id]]
+                    else:
+                        new_args.append(x)
+                node.args = new_args
+                return node
+
+            def visit_Name(self, node):
+                if node.id in subst and isinstance(node.ctx, ast.Load):
+                    return ast.copy_location(copy.deepcopy(subst[node.id]), node)
+                return node
+        body = [_Sub().visit(b) for b in body]
     rn = _Renamer(mapping, ret)
     new_body: List[ast.stmt] = []
     for s in body:
@@ -194,6 +249,12 @@ def _expand_call(callee: ast.FunctionDef, call: ast.Call, skip_self: bool, self_
         ast.fix_missing_locations(s)
     res = ast.copy_location(ast.Name(id=ret, ctx=ast.Load()), call)
     return stmts, res
+
+
+def _plain_chain(e: ast.expr) -> bool:
+    while isinstance(e, ast.Attribute):
+        e = e.value
+    return isinstance(e, ast.Name)
 
 
 def _terminal(st: ast.stmt) -> bool:
